@@ -253,6 +253,31 @@ func damages() []damage {
 
 var c06Procs = []int{1, 2, 3, 11}
 
+// panicSlug turns a panic value into a stable class component (numbers become #).
+func panicSlug(v string) string {
+	var sb []byte
+	lastHash := false
+	for i := 0; i < len(v) && len(sb) < 60; i++ {
+		c := v[i]
+		switch {
+		case c >= '0' && c <= '9':
+			if !lastHash {
+				sb = append(sb, '#')
+			}
+			lastHash = true
+			continue
+		case c >= 'a' && c <= 'z', c >= 'A' && c <= 'Z':
+			sb = append(sb, c)
+		default:
+			if len(sb) > 0 && sb[len(sb)-1] != '-' {
+				sb = append(sb, '-')
+			}
+		}
+		lastHash = false
+	}
+	return string(sb)
+}
+
 func sameObjs(want, got []osm.Object) string {
 	if len(want) != len(got) {
 		return fmt.Sprintf("want %d objects, got %d", len(want), len(got))
@@ -266,7 +291,7 @@ func sameObjs(want, got []osm.Object) string {
 }
 
 type c06case struct {
-	kind  string // "cut" | "dmg" | "ioerr"
+	kind  string // "cut" | "dmg" | "ioerr" | "flip"
 	off   int    // cut / error offset
 	dmg   int    // index into damages()
 	pos   int    // data block index replaced
@@ -391,10 +416,30 @@ func runC06(t *testing.T, r *kit.Run) {
 			continue
 		}
 		for pos := 0; pos < len(f.Blocks); pos++ {
+			if d.name == "second-header" && pos == 0 && !f.Header.Present {
+				continue // an OSMHeader as the very first block is simply the header
+			}
 			if positions[pos] {
 				for _, p := range c06Procs {
 					cases = append(cases, c06case{kind: "dmg", dmg: di, pos: pos, procs: p})
 				}
+			}
+		}
+	}
+
+	// random bit flips inside the PrimitiveBlock bytes of raw (uncompressed) blocks: whatever the flip produces, the
+	// scan must neither crash nor hang, and the objects of the blocks before the damaged one are delivered first
+	{
+		h := kit.Mix(wl + 99)
+		nflip := 0
+		for pos, b := range f.Blocks {
+			if b.PayloadOff < 0 || b.End-b.PayloadOff < 2 || nflip >= 3 {
+				continue
+			}
+			nflip++
+			for i := 0; i < 24; i++ {
+				h = kit.Mix(h)
+				cases = append(cases, c06case{kind: "flip", off: int(h >> 8 % uint64(b.End-b.PayloadOff)), dmg: int(h & 0xff), pos: pos, procs: c06Procs[i%2]})
 			}
 		}
 	}
@@ -405,7 +450,7 @@ func runC06(t *testing.T, r *kit.Run) {
 	if r.Params != nil {
 		pinned = true
 		k, _ := r.Param("kind")
-		pin.kind = []string{"cut", "dmg", "ioerr"}[k]
+		pin.kind = []string{"cut", "dmg", "ioerr", "flip"}[k]
 		o, _ := r.Param("off")
 		pin.off = int(o)
 		d, _ := r.Param("dmg")
@@ -419,7 +464,7 @@ func runC06(t *testing.T, r *kit.Run) {
 		}
 		cases = []c06case{pin}
 	}
-	kindIdx := map[string]int{"cut": 0, "dmg": 1, "ioerr": 2}
+	kindIdx := map[string]int{"cut": 0, "dmg": 1, "ioerr": 2, "flip": 3}
 
 	for ci, c := range cases {
 		if !pinned && r.Group > 1 && ci%r.Group != r.Slice {
@@ -463,6 +508,24 @@ func runC06(t *testing.T, r *kit.Run) {
 				desc = fmt.Sprintf("reader returns an I/O error at offset %d of %d (%s), %d decoders", c.off, len(f.Data), where, c.procs)
 				r.Out.Fault("io-error-at-offset")
 			}
+		case "flip":
+			b := f.Blocks[c.pos]
+			if b.PayloadOff < 0 || b.PayloadOff+c.off >= b.End {
+				continue
+			}
+			data := append([]byte(nil), f.Data...)
+			bit := byte(1) << uint(c.dmg&7)
+			data[b.PayloadOff+c.off] ^= bit
+			if c.dmg&0x80 != 0 && b.PayloadOff+c.off+1 < b.End {
+				data[b.PayloadOff+c.off+1] ^= byte(c.dmg>>3) | 1 // a second damaged byte
+			}
+			cfg.data = data
+			for _, pb := range f.Blocks[:c.pos] {
+				want = append(want, pb.Objs...)
+			}
+			class = "C06/bitflip"
+			desc = fmt.Sprintf("bit flip at byte %d (mask %#x) of the raw PrimitiveBlock of data block %d, %d decoders", c.off, bit, c.pos, c.procs)
+			r.Out.Fault("bit-flip-in-raw-block")
 		case "dmg":
 			d := dm[c.dmg]
 			blk := d.block()
@@ -502,12 +565,27 @@ func runC06(t *testing.T, r *kit.Run) {
 			r.Out.Probe("io-error-returned")
 		}
 		if sym, msg := symptom(&res); sym != "" {
+			if c.kind == "flip" && sym == "crash" && len(res.sim.Crashes) > 0 {
+				// a flip can produce any kind of damage: the class names the panic so that different crashes stay apart
+				sym = "crash/" + panicSlug(res.sim.Crashes[0].Value)
+			}
 			r.Out.Violate(class+"/"+sym, "%s%s: %s", pinStr, desc, msg)
 			r.Out.Trace = res.sim.Trace
 			continue
 		}
 		if !res.closeOK {
 			r.Out.Violate(class+"/close-did-not-return", "%s%s", pinStr, desc)
+			continue
+		}
+		if c.kind == "flip" {
+			// the flip may or may not be detectable; only the prefix and the absence of crash/hang are asserted
+			if len(res.objs) < len(want) || sameObjs(want, res.objs[:len(want)]) != "" {
+				r.Out.Violate(class+"/wrong-prefix", "%s%s: the objects of the intact blocks before the damaged one were not delivered first (got %d objects, err=%v)", pinStr, desc, len(res.objs), res.err)
+			} else if res.err != nil {
+				r.Out.Probe("bit-flip-detected")
+			} else {
+				r.Out.Probe("bit-flip-undetected")
+			}
 			continue
 		}
 		if m := sameObjs(want, res.objs); m != "" {
